@@ -203,9 +203,30 @@ def run_check(prop, tier, seed=0):
             continue
         sub, _ = evaluate(q, {"default": q, cfg: q})
         skip = set(getattr(mod, "CONFIG_DEPENDENT", {}).get(cfg, ()))
+        # obligations adopted from another property's rule (Cx.include: `C12.9:C09.1/drop-impl`) depend on the configuration
+        # exactly when the original does
+        import glob as _glob
+        import re as _re
+        theirs = set()
+        for fpath in _glob.glob(os.path.join(VERIF, "rules", "c[0-9][0-9].py")):
+            try:
+                m2 = importlib.import_module("rules.%s" % os.path.basename(fpath)[:-3])
+                theirs |= set(getattr(m2, "CONFIG_DEPENDENT", {}).get(cfg, ()))
+            except Exception:
+                pass
+
+        def original(k):
+            mm = _re.match(r"^[^:]+:(C\d+\.\w+)/(.*)$", k)
+            return "%s:%s" % (mm.group(1), mm.group(2)) if mm else None
         for o in sub.obl:
-            if o["key"] in skip:
+            if o["key"] in skip or original(o["key"]) in theirs:
                 continue
+            if o["key"].endswith(":floor") and o["status"] == "violation":
+                # the floor of an adopting rule whose adopted obligations are configuration dependent
+                r_ = sub.rules.get(o["rule"]) or {}
+                adopted = [x for x in sub.obl if x["rule"] == o["rule"] and original(x["key"]) in theirs]
+                if adopted and r_.get("floor") is not None and r_.get("instances", 0) + len(adopted) >= r_["floor"]:
+                    continue
             o = dict(o)
             o["config"] = cfg
             o["detail"] = "[--features %s] %s" % (cfg, o["detail"])
